@@ -115,7 +115,8 @@ class C08(Engine):
         seed = item['seed']
         knobs = random.Random(mix(seed, 'knobs'))
         codec = knobs.choice(CODECS)
-        corpus = sorted(glob.glob(os.path.join(VERIF, 'corpus', 'hot*.asn')))
+        corpus = sorted(glob.glob(os.path.join(VERIF, 'corpus', 'hot*.asn'))
+                        + glob.glob(os.path.join(VERIF, 'corpus', 'wire*.asn')))
 
         if corpus and knobs.random() < 0.4:
             with open(knobs.choice(corpus)) as fin:
@@ -309,6 +310,14 @@ class C08(Engine):
 
         spec, text, parsed = world.gen_world(run_seed, codec,
                                              features=features)
+        corpus_text = None
+
+        if knobs.random() < 0.1:
+            found = world.corpus_world(knobs)
+
+            if found is not None:
+                spec, corpus_text, parsed = found
+
         messages = []
 
         if parsed is not None:
@@ -324,7 +333,7 @@ class C08(Engine):
                         for name, value in drawn]
 
         return {'spec': spec, 'codec': codec, 'messages': messages,
-                'numeric_enums': numeric_enums,
+                'numeric_enums': numeric_enums, 'text': corpus_text,
                 'memory': knobs.random() < 0.12, 'seed': run_seed}
 
     def execute(self, case):
